@@ -24,6 +24,16 @@ EnvSets == [
                 E3(G(1, 1, 2, 1), G(0, 1, -1, 1), Q(3, 1)),
                 E3(G(-1, 1, 1, 1), G(-2, 1, -1, 2), Q(3, 1)),
                 E3(G(-1, 2, -3, 1), G(1, 1, 1, 1), Q(-1, 1)) >>,
+  \* positive real values only
+  pos |-> << E3(Q(2, 1), Q(3, 1), Q(5, 1)),
+             E3(Q(1, 2), Q(4, 1), Q(1, 3)),
+             E3(Q(4, 1), Q(9, 1), Q(1, 1)),
+             E3(Q(1, 4), Q(8, 1), Q(2, 3)),
+             E3(Q(3, 1), Q(1, 2), Q(7, 2)) >>,
+  \* positive multiples of pi
+  posangle |-> << E3(PiQ(1, 3), PiQ(1, 4), PiQ(1, 12)),
+                  E3(PiQ(5, 6), PiQ(1, 2), PiQ(1, 1)),
+                  E3(PiQ(2, 3), PiQ(1, 6), PiQ(3, 2)) >>,
   angle |-> << E3(PiQ(1, 3), PiQ(-1, 4), PiQ(1, 12)),
                E3(PiQ(5, 6), PiQ(1, 2), PiQ(-1, 1)),
                E3(Q(0, 1), PiQ(1, 1), PiQ(7, 12)),
